@@ -3,6 +3,7 @@ import time as _time
 import gen
 import posgen
 from searchlib import *
+from ucisession import run_script
 from vlib import *
 
 LEVEL = "proof"
@@ -125,6 +126,38 @@ def run(ctx):
                 ctx.violation("iteration-driver model and engine disagree on a recorded run (correspondence 'drive'): cmd '%s': model [%s] engine [%s]"
                               % (ln, (got or "")[:300], exp[:300]), {"session": lines, "failing_cmd": ln, "model": got, "engine": exp, "raw": r},
                               key="c09:drive:" + ln, no_input=True)
+    # ---- the UCI text level: go ... searchmoves <list> through Uci::go_command of the real binary (promotion tokens are 5
+    #      characters, castling is written as a king move): the answer must be in the list ----
+    exe = engine_binary("plain")
+    PROMO = ["4k3/4P3/8/8/8/8/8/4K3 w - - 0 1", "8/8/8/8/8/8/4p3/3RK2k b - - 0 1", "r3k3/1P6/8/8/8/8/8/4K3 w q - 0 1", "4k3/8/8/8/8/8/1p6/R3K3 b Q - 0 1",
+             "r3k2r/8/8/8/8/8/8/R3K2R w KQkq - 0 1"]
+    uci_cases = []
+    for f in PROMO + [rng.choice(fens) for _ in range(6 if q else 60)]:
+        rc_, lr, e_ = run_lines(model, ["legal " + f])
+        ms = (lr[0] or "0").split()[1:]
+        if not ms:
+            continue
+        under = [m for m in ms if len(m) == 5 and m[4] != "q"]
+        lists = [rng.sample(ms, max(1, len(ms) // 3))]
+        if under:
+            lists += [under[:1], under, [under[-1]] + rng.sample(ms, 1)]
+        castles = [m for m in ms if m in ("e1g1", "e1c1", "e8g8", "e8c8")]
+        if castles:
+            lists.append(castles)
+        for l in lists:
+            uci_cases.append((f, l))
+    import concurrent.futures
+    with concurrent.futures.ThreadPoolExecutor(max_workers=NPROC) as ex:
+        ures = list(ex.map(lambda c: run_script(exe, ["position fen " + c[0], "go depth 2 searchmoves " + " ".join(c[1])], go_timeout=60), uci_cases))
+    for (f, l), r in zip(uci_cases, ures):
+        ngo += 1
+        b = r["bestmoves"][0] if r["bestmoves"] else None
+        if b not in l:
+            nviol += 1
+            if nviol <= 6:
+                ctx.violation("UCI: 'go depth 2 searchmoves %s' on '%s' answered %s, which is not in the list" % (" ".join(l), f, b),
+                              {"session": ["position fen " + f, "go depth 2 searchmoves " + " ".join(l)], "log": r["log"][-8:]}, key="c09:uci:%s:%s" % (f, " ".join(l)))
+    ctx.notes["uci_level_searchmoves_sessions"] = len(uci_cases)
     ctx.cov["evaluations"] = ngo
     ctx.cov["distinct_nontrivial"] = len(set(drive_cases))
     ctx.cov["traces_validated_against_impl"] = nconf
